@@ -676,6 +676,21 @@ public:
       rt(name == d->kv.name, "keyval", "name", "wrote " + d->kv.name + " read " + name);
       rt(args == d->kv.args, "keyval", "args", "argument map differs for " + printable(desc));
       ctx.probe("compared:keyval");
+      // substituting arguments changes exactly the named ones: a plan-chosen subset of the present keys gets new values, one absent
+      // key is named as well; the result is parsed again and compared with the model map updated in the same way
+      if (g == 0) {
+        std::map<std::string, std::string> nk, want = d->kv.args; size_t i = 0;
+        for (auto& kv : d->kv.args) { if ((o.d >> (i % 12)) & 1) { nk[kv.first] = "R" + std::to_string(i); want[kv.first] = nk[kv.first]; } ++i; }
+        nk["zz_absent"] = "Q";
+        std::string changed, n2; std::map<std::string, std::string> a2;
+        int gc = guard("KeyvalTools::changeKeyvals", [&] { changed = bpp::KeyvalTools::changeKeyvals(desc, nk, ",", true); });
+        rt(gc == 0, "keyval", "substitute-raised", "changeKeyvals raised on " + printable(desc));
+        int gp = guard("KeyvalTools::parseProcedure", [&] { bpp::KeyvalTools::parseProcedure(changed, n2, a2); });
+        rt(gp == 0, "keyval", "substitute-unparsable", "the substituted description does not parse: " + printable(changed));
+        rt(n2 == d->kv.name, "keyval", "substitute-name", "substitution changed the procedure name: " + printable(changed));
+        rt(a2 == want, "keyval", nk.size() > 1 ? "substitute-args" : "substitute-nothing-named", "after substituting " + std::to_string(nk.size() - 1) + " present argument(s) the description reads " + printable(changed) + " (from " + printable(desc) + ")");
+        ctx.probe("compared:keyval-substitution");
+      }
     }
     if (g == 0) {
       size_t inner = 0;
